@@ -19,7 +19,7 @@ P_MAXIT = 60  # keeps accidental feedback loops cheap
 
 class Node:
     __slots__ = ("key", "id", "kind", "parent", "children", "initial", "hist",
-                 "hist_default", "custom_id", "depth", "index", "output", "dup_keys")
+                 "hist_default", "custom_id", "depth", "index", "output", "dup_keys", "dup_spell_any")
 
     def __init__(self, key: str, kind: str, parent: Optional["Node"]):
         self.key = key
@@ -248,6 +248,7 @@ def gen_tree(rng: random.Random, P: Dict[str, Any]) -> Tree:
 
     populate(root)
     root.dup_keys = bool(p_dup)
+    root.dup_spell_any = bool(P.get("dup_spell_any", False))
     tree = Tree(root)
     # history defaults + custom ids
     for n in tree.order:
@@ -299,7 +300,7 @@ def spell(rng: random.Random, source: Node, target: Node) -> str:
     top = source
     while top.parent is not None:
         top = top.parent
-    if getattr(top, "dup_keys", False):
+    if getattr(top, "dup_keys", False) and not getattr(top, "dup_spell_any", False):
         # with local names reused across parents only id-anchored spellings are unambiguous
         kinds = [k for k in kinds if k in ("abs", "cid", "cidpath")]
     # prefer variety but weight bare/abs
